@@ -1,6 +1,7 @@
 package conformance
 
 import (
+	"encoding/base64"
 	"net/http"
 	"net/http/httptest"
 	"os"
@@ -78,6 +79,22 @@ func TestSessionCookieIntegrityAssumption(t *testing.T) {
 			}
 			if restored(store, valid[:i]) != "" {
 				t.Fatalf("%s: cookie truncated to %d characters still yields the identity", name, i)
+			}
+		}
+		// with the canonical-text gate of web.GetSession (strict base64 before the store sees the cookie)
+		// no altered cookie yields the identity at all: every character, every other alphabet character
+		if _, err := base64.URLEncoding.Strict().DecodeString(valid); err != nil {
+			t.Fatalf("%s: the issued cookie is not canonical base64: %v", name, err)
+		}
+		for i := 0; i < len(valid); i++ {
+			for k := 0; k < len(alphabet); k++ {
+				if alphabet[k] == valid[i] {
+					continue
+				}
+				m := valid[:i] + string(alphabet[k]) + valid[i+1:]
+				if _, err := base64.URLEncoding.Strict().DecodeString(m); err == nil && restored(store, m) != "" {
+					t.Fatalf("%s: cookie altered at %d to %q passes the strict decoder and the store", name, i, alphabet[k])
+				}
 			}
 		}
 		other := mk(key(), key())
